@@ -286,6 +286,19 @@ def run_tasks(pid, mod, tasks, jobs):
             rconn.close()
 
 
+_WATCH = {}
+_STUCK = set()
+
+
+def _cpu_seconds(pid):
+    try:
+        with open(f'/proc/{pid}/stat') as f:
+            parts = f.read().rsplit(')', 1)[1].split()
+        return (int(parts[11]) + int(parts[12])) / os.sysconf('SC_CLK_TCK')
+    except (OSError, ValueError, IndexError):
+        return None
+
+
 def _run_tasks(pid, mod, pending, running, jobs, ctx, mpc):
     while pending or running:
         while pending and len(running) < jobs:
@@ -297,10 +310,25 @@ def _run_tasks(pid, mod, pending, running, jobs, ctx, mpc):
             p.start()
             wconn.close()
             running[p.sentinel] = (p, rconn, task, progress)
-        ready = mpc.wait([v[1] for v in running.values()] + list(running))
+        ready = mpc.wait([v[1] for v in running.values()] + list(running),
+                         timeout=10)
+        # watchdog: a case that burns CPU far beyond its limit without the
+        # in-process timer firing is stuck outside the interpreter (a loop
+        # inside the BDD library): end the worker from here
+        limit = float(getattr(mod, 'CASE_TIMEOUT', 20))
         for key in list(running):
             p, rconn, task, progress = running[key]
-            if rconn not in ready and key not in ready:
+            cpu = _cpu_seconds(p.pid)
+            seen = _WATCH.get(key)
+            if seen is None or seen[0] != progress.value or cpu is None:
+                _WATCH[key] = (progress.value, cpu)
+            elif cpu - (seen[1] or 0) > 3 * limit + 30 and p.is_alive():
+                _STUCK.add(key)
+                p.kill()
+        for key in list(running):
+            p, rconn, task, progress = running[key]
+            if rconn not in ready and key not in ready and \
+                    key not in _STUCK:
                 continue
             r = None
             if rconn.poll():
@@ -313,10 +341,20 @@ def _run_tasks(pid, mod, pending, running, jobs, ctx, mpc):
             if r is None:
                 p.join()
                 r = _crash_result(mod, task, progress.value, p.exitcode)
+                if key in _STUCK:
+                    v = r['viol'][0]
+                    v['kind'] = 'timeout'
+                    v['detail'] = ('the case used more than three times its '
+                                   'CPU-time limit without returning to the '
+                                   'interpreter; the worker was ended')
+                    r['counters'] = collections.Counter(
+                        {'viol:timeout': 1, 'capped': 1})
             else:
                 p.join()
             rconn.close()
             del running[key]
+            _WATCH.pop(key, None)
+            _STUCK.discard(key)
             yield r
 
 
